@@ -23,6 +23,9 @@ def H3_FRAME_UNEXPECTED : Nat := 0x0105
 def H3_FRAME_ERROR : Nat := 0x0106
 def H3_SETTINGS_ERROR : Nat := 0x0109
 def H3_REQUEST_INCOMPLETE : Nat := 0x010d
+def H3_GENERAL_PROTOCOL_ERROR : Nat := 0x0101
+def H3_ID_ERROR : Nat := 0x0108
+def H3_MESSAGE_ERROR : Nat := 0x010e
 
 /-- the frame alphabet of the property, by meaning -/
 inductive K where
@@ -93,15 +96,16 @@ structure Outcome where
   streamReset : Option Nat := none
 deriving Repr, DecidableEq
 
+/-- The verdict is ALWAYS a finite list of explicit outcomes: where the property text leaves the
+    answer open (R-03: the client-side counterparts of the two server rules) the list names every
+    alternative the RFC allows — a panic, a hang, or going on to process the stream is never among
+    them.  (Until the audit there was a constructor `any` = "no opinion" for these cases.) -/
 inductive Expect where
-  /-- the property leaves this case open (R-03) -/
-  | any
   /-- exactly one of these -/
   | oneOf (os : List Outcome)
 deriving Repr, DecidableEq
 
 def Expect.accepts : Expect → Outcome → Prop
-  | .any, _ => True
   | .oneOf os, o => o ∈ os
 
 instance (e : Expect) (o : Outcome) : Decidable (e.accepts o) := by
@@ -125,6 +129,18 @@ def Phase.seen : Phase → List Obs
 def violation (p : Phase) (codes : List Nat) : Expect :=
   .oneOf (codes.map fun c => { calls := p.seen ++ [.connError c], connError := some c })
 
+/-- R-03, client side of "the stream ends before any HEADERS".  The property fixes the server's
+    answer only; for a client RFC 9114 §4.1 makes a response without a header section incomplete,
+    hence the call that waits for the response must FAIL: with the connection error
+    H3_FRAME_UNEXPECTED (the end of the stream where HEADERS is the only frame allowed — what h3
+    does) or with an error confined to the stream (§4.1.2 malformed: H3_MESSAGE_ERROR; incomplete:
+    H3_REQUEST_INCOMPLETE; H3_GENERAL_PROTOCOL_ERROR), the stream reset with that code or not.
+    Delivering a response, reporting a clean end, waiting for ever or panicking are not in the list. -/
+def clientNoResponse : Expect :=
+  .oneOf ({ calls := [.connError H3_FRAME_UNEXPECTED], connError := some H3_FRAME_UNEXPECTED } ::
+    [H3_MESSAGE_ERROR, H3_REQUEST_INCOMPLETE, H3_GENERAL_PROTOCOL_ERROR].flatMap fun c =>
+      [{ calls := [.streamError c] }, { calls := [.streamError c], streamReset := some c }])
+
 /-- the stream stops while the recogniser is in phase `p` -/
 def atStop (side : Side) (p : Phase) : Stop → Expect
   | .truncated => violation p [H3_FRAME_ERROR]
@@ -141,7 +157,7 @@ def atStop (side : Side) (p : Phase) : Stop → Expect
       match side with
       | .server => .oneOf [{ calls := [.streamError H3_REQUEST_INCOMPLETE],
                              streamReset := some H3_REQUEST_INCOMPLETE }]
-      | .client => .any
+      | .client => clientNoResponse
     | .body h acc => .oneOf [{ calls := [.head h, .body acc, .bodyEnd, .noTrailers] }]
     | .trailers h acc t => .oneOf [{ calls := [.head h, .body acc, .bodyEnd, .trailers t] }]
 
@@ -156,7 +172,11 @@ def expected (side : Side) : Phase → List K → Stop → Expect
   | p, .P :: _, _ =>
     match side with
     | .server => violation p [H3_FRAME_UNEXPECTED]
-    | .client => .any
+    -- R-03, client side: h3 has no push support and never sends MAX_PUSH_ID, so every PUSH_PROMISE
+    -- carries a push ID above the (absent) limit: §7.2.5 H3_ID_ERROR; refusing the frame as
+    -- unexpected is the other acceptable answer.  Either way the call in progress fails with a
+    -- connection error; the frame is never skipped or acted on.
+    | .client => violation p [H3_FRAME_UNEXPECTED, H3_ID_ERROR]
   | .start, .H b :: r, stop => expected side (.body b []) r stop
   | .start, .D _ :: _, _ => violation .start [H3_FRAME_UNEXPECTED]
   | .start, .Dpart _ :: _, _ => violation .start [H3_FRAME_UNEXPECTED]
